@@ -88,6 +88,19 @@ pub const CATS_DENSE: Cats = Cats {
     space: Some(2),
 };
 
+/// Four categories with SPACE declared last (category id 3): `1 << id` and `id << 1` differ.
+pub const CATS_SPACE3: Cats = Cats {
+    rows: [
+        (0b0001, 0, false, true, 0),
+        (0b0010, 1, true, false, 2),
+        (0b0100, 2, true, false, 2),
+        (0b0001, 0, false, true, 0),
+        (0b1000, 3, false, true, 0),
+    ],
+    ncat: 4,
+    space: Some(3),
+};
+
 /// Same as CATS_MIX but without a SPACE category (ignore_space must be rejected).
 pub const CATS_NOSPACE: Cats = Cats {
     rows: [
